@@ -117,7 +117,7 @@ Reg r10({"hbprod", "C10", gen_hbprod, [](const Plan &p, Cov &c, bool vb) { HbPro
 // C11
 struct HbConsRun : NodeEnv {
     struct Ent { uint8_t node = 0; uint16_t time = 0; bool active = false; uint64_t deadline = 0; uint32_t events = 0; int last = 0; };
-    std::vector<Ent> ent; int m = M_PREOP; int nEnt = 1; bool allowBoot = false;
+    std::vector<Ent> ent; int m = M_PREOP; int nEnt = 1; bool allowBoot = false; int mcEntry = -1; uint8_t mcNode = 0; uint16_t mcTime = 0; bool mcReal = false, mcHooked = false;
     HbConsRun(const Plan &p, Cov &c, bool vb) : NodeEnv(p, c, vb) {}
     uint32_t tk(uint32_t ms) { return (uint32_t)((uint64_t)ms * freq / 1000); }
     int scriptEntry = -1, scriptReal = -1; uint8_t scriptNode = 0;   // application script for CONmtHbConsEvent (model side / real side)
@@ -188,10 +188,17 @@ struct HbConsRun : NodeEnv {
         else if (k == "events") { uint8_t node = (uint8_t)o.arg(0); Ent *e = configured(node); w.cur = 0; int16_t r = CONmtGetHbEvents(&N()->Nmt, node); int exp = e ? (int)e->events : -1; if (r != exp) fail("hbcons/event-counter", "CONmtGetHbEvents(" + std::to_string(node) + ") = " + std::to_string(r) + ", model " + std::to_string(exp)); if (e) { if (e->events) cov.hit("counter-read-nonzero"); e->events = 0; } }
         else if (k == "last") { uint8_t node = (uint8_t)o.arg(0); Ent *e = configured(node); w.cur = 0; int r = (int)CONmtLastHbState(&N()->Nmt, node); int exp = e ? e->last : 0; if (r != exp) fail("hbcons/last-state", "CONmtLastHbState(" + std::to_string(node) + ") = " + std::to_string(r) + ", model " + std::to_string(exp)); }
         else if (k == "readback") { if (m == M_STOP) return; int n = (int)(o.arg(0) % nEnt); uint32_t val = 0; uint32_t ab = sdoRead(0x1016, (uint8_t)(n + 1), val); uint32_t ex = (uint32_t)ent[(size_t)n].node << 16 | ent[(size_t)n].time; if (ab != 0 || val != ex) fail("hbcons/readback", "1016h:" + std::to_string(n + 1) + " reads " + hex(val) + " (abort " + hex(ab) + "), model " + hex(ex)); }
-        else if (k == "nmt") { uint8_t cs = (uint8_t)o.arg(0); deliver(Frame(0, 2, {cs, 0})); if (cs == 1) m = M_OP; else if (cs == 2) m = M_STOP; else if (cs == 128) m = M_PREOP;
+        else if (k == "mcscript") {   // application code in CONmtModeChange(PRE-OPERATIONAL): (re)configures a consumer entry through the API when the node arrives there - after a reset that is after the consumers were set up again
+            int n = (int)(o.arg(0) % nEnt); uint8_t node = (uint8_t)o.arg(1); uint16_t time = (uint16_t)o.arg(2); if (node < 1 || node > 127 || (time && tk(time) == 0)) return; mcEntry = n; mcNode = node; mcTime = time; mcReal = true;
+            if (!mcHooked) { mcHooked = true; w.onModeChange = [this](int mode) { if (!mcReal || mode != CO_PREOP) return; mcReal = false; (void)CODictWrLong(&N()->Dict, CO_DEV(0x1016, (uint8_t)(mcEntry + 1)), (uint32_t)mcNode << 16 | mcTime); (void)CONodeGetErr(N()); }; } return; }
+        else if (k == "nmt") { uint8_t cs = (uint8_t)o.arg(0); int mBefore = m; deliver(Frame(0, 2, {cs, 0})); if (cs == 1) m = M_OP; else if (cs == 2) m = M_STOP; else if (cs == 128) m = M_PREOP;
             // reset communication / node: every consumer starts over from its stored (node, time): not monitoring until the first heartbeat, counter 0, no state known, no timer left behind
             else if (cs == 129 || cs == 130) { m = M_PREOP; allowBoot = true; for (auto &e : ent) { if (e.active) { cov.hit("reset-while-monitoring"); nontrivial = true; } e.active = false; e.events = 0; e.last = 0; e.deadline = 0; } scriptEntry = -1; scriptReal = -1;
-                int used = w.tmrUsedActions(0); if (used != 0) { fail("hbcons/timer-leak", std::to_string(used) + " timer slots in use right after a reset (no heartbeat received since)"); return; } } }
+                int used = w.tmrUsedActions(0); if (used != 0) { fail("hbcons/timer-leak", std::to_string(used) + " timer slots in use right after a reset (no heartbeat received since)"); return; } }
+            if (mcEntry >= 0 && (cs == 129 || cs == 130 || (cs == 128 && mBefore != M_PREOP))) {   // the callback ran (last thing of the reset / of the transition): same rules as an SDO write
+                int n = mcEntry; mcEntry = -1; cov.hit(cs == 128 ? "entry-written-from-the-mode-change-callback" : "entry-written-from-the-mode-change-callback-of-a-reset"); nontrivial = true;
+                if (!(mcTime > 0 && configured(mcNode))) { Ent &e = ent[(size_t)n]; e = Ent(); e.node = mcNode; e.time = mcTime; }
+                for (int i = 0; i < nEnt && v.ok; i++) { uint32_t st = w.raw(0, 0x1016, (uint8_t)(i + 1)); uint32_t ex = (uint32_t)ent[(size_t)i].node << 16 | ent[(size_t)i].time; if (st != ex) fail("hbcons/stored-value", "1016h:" + std::to_string(i + 1) + " holds " + hex(st) + ", model " + hex(ex) + " after the write from the mode-change callback"); } } }
         safety();
         if (v.ok) checkCallbacks(mk, ee, ec, k.c_str());
         allowBoot = false;
@@ -222,6 +229,7 @@ Plan gen_hbcons(Rng &r, bool thorough) {
         else if (c < 6) p.ops.push_back(Op("hb", {anyNode(), r.pick<int64_t>({5, 5, 5, 127, 4, 0, 3})}));
         else if (c < 12) { int64_t T = r.pick<int64_t>({5, 10, 20, 50}) * (int64_t)f / 1000; p.ops.push_back(Op("tick", {r.chance(1, 15) ? 300 * T : r.pick<int64_t>({1, T - 1, T, T + 1, 2 * T, T / 2, 3 * T + 1})})); }
         else if (c < 16) p.ops.push_back(Op("write", {(int64_t)r.below((uint32_t)ne), anyNode(), r.chance(1, 3) ? 0 : r.pick<int64_t>({5, 10, 20, 50})}));
+        else if (c == 16 && r.chance(1, 4)) { p.ops.push_back(Op("mcscript", {(int64_t)r.below((uint32_t)ne), anyNode(), r.chance(1, 4) ? 0 : r.pick<int64_t>({5, 10, 20, 50})})); if (r.chance(2, 3)) p.ops.push_back(Op("nmt", {r.pick<int64_t>({129, 130, 128, 130})})); }
         else if (c == 16 && r.chance(1, 3)) p.ops.push_back(Op("evscript", {(int64_t)r.below((uint32_t)ne), anyNode()}));
         else if (c == 16) p.ops.push_back(Op("events", {anyNode()}));
         else if (c == 17) p.ops.push_back(Op("last", {anyNode()}));
